@@ -154,6 +154,27 @@ theorem remove_shrinks_any (s : TdfSt) (t : Nat) (now : Int) (pos : Nat) (hpos :
   simp only [hpos]
   exact remove_len _ _ _ _ h0 h1 hin hfit
 
+/-- table level and byte level joined (this closes half of what `C03.remove_any_table_wf_partial` lists as missing): on ANY well-formed
+    table — any order, gaps — whose jump table lies inside the file, the table `remove_block` leaves is well-formed for the file AS LONG AS
+    IT REALLY IS afterwards (the length of the bytes seen through the handle, which are the bytes on disk) -/
+theorem remove_any_table_wf_file (s : TdfSt) (t : Nat) (now : Int) (pos : Nat) (ht : t ≠ 0)
+    (hfind : findType t s.entries = some pos) (hwf : WFTable s.nEntries s.view.length s.entries)
+    (hfit : slotPos 0 + ((removeBlock s t now).1.entries.flatMap Entry.enc).length ≤ s.view.length) :
+    WFTable s.nEntries (removeBlock s t now).1.view.length (removeBlock s t now).1.entries := by
+  have hw := C03.remove_any_table_wf_partial s t now s.view.length pos ht hfind hwf
+  obtain ⟨e, h1, h2, _⟩ := findIdxBy_some _ _ _ hfind
+  have hget : s.entries.getD pos unusedEntry = e := by simp [List.getD_eq_getElem?_getD, h1]
+  have hmem : e ∈ liveOf s.entries := by
+    unfold liveOf
+    refine List.mem_filter.mpr ⟨List.mem_of_getElem? h1, ?_⟩
+    have : e.typ = t := by simpa using h2
+    simp [this, ht]
+  obtain ⟨hlo, hsz, hhi⟩ := hwf.1 e hmem
+  have hl := remove_shrinks_any s t now pos hfind (by rw [hget]; omega) (by rw [hget]; exact hsz) (by rw [hget]; exact hhi) hfit
+  have : (removeBlock s t now).1.view.length = s.view.length - (s.entries.getD pos unusedEntry).size.toNat := by omega
+  rw [this]
+  exact hw
+
 /-! the ADD half on any state -/
 
 theorem writeEntries_length (v : Bytes) (start : Nat) (es : List Entry) (henc : ∀ e ∈ es, e.enc.length = 288)
